@@ -241,11 +241,16 @@ func genFailedCheckpoint(r *Rng, cfg *Config) []Op {
 	}
 	site := PickOf(r, []string{"sql:pragma:wal_checkpoint", "sql:pragma:wal_checkpoint", "sql:begin", "sql:select:seq", "sql:insert:seq", "sql:insert:lock", "sql:rollback", "ckpt:pragma_done", "ckpt:read_lock_released"})
 	st := Step{K: "sql_fail"}
-	switch r.Pick([]int{4, 2, 4}) {
+	switch r.Pick([]int{4, 2, 4, 4}) {
 	case 1:
 		st.Mode = "busy"
 	case 2:
 		st = Step{K: "cancel_ctx"}
+	case 3:
+		// the disk holding the local level-0 staging directory is full (or fails)
+		// for the next staged file: at open, while writing, or at fsync
+		st = Step{K: "stage_fail", Mode: PickOf(r, []string{"open", "write", "sync"})}
+		site = PickOf(r, []string{"phase:sync_prepare_ltx", "phase:checkpoint_snapshot_boundary", "phase:checkpoint_snapshot_boundary", "phase:checkpoint_copy_before", "sql:insert:lock", "ckpt:pragma_done"})
 	}
 	op.Interpose = []Interpose{{Site: site, Nth: r.Pick([]int{6, 3, 1}) + 1, Steps: []Step{st}}}
 	ops = append(ops, op)
@@ -278,4 +283,17 @@ func genQueuedOp(r *Rng, cfg *Config) []Op {
 	op.Interpose = []Interpose{{Site: site, Nth: 1, Steps: []Step{t1, {K: "ls_nested_sync", N: r.Intn(2)}, t2}}}
 	ops = append(ops, op, Op{Kind: "ls_sync_wait"})
 	return ops
+}
+
+// genBoundaryStageFail: a checkpoint that restarts the WAL and whose boundary
+// snapshot cannot be staged locally (disk full / I/O error), followed by
+// application writes (which must still work) and an acknowledged sync.
+func genBoundaryStageFail(r *Rng, cfg *Config) []Op {
+	tx := genTxn(r, cfg)
+	tx.Rollback = false
+	op := Op{Kind: "ls_ckpt", Mode: PickOf(r, []string{"TRUNCATE", "TRUNCATE", "RESTART", "FULL"})}
+	op.Interpose = []Interpose{{Site: "phase:checkpoint_snapshot_boundary", Nth: 1, Steps: []Step{{K: "stage_fail", Mode: PickOf(r, []string{"open", "write", "sync"})}}}}
+	t2, t3 := genTxn(r, cfg), genTxn(r, cfg)
+	t2.Rollback, t3.Rollback = false, false
+	return []Op{appOp(tx), op, appOp(t2), appOp(t3), Op{Kind: "ls_sync_wait"}}
 }
